@@ -4,5 +4,5 @@ use dryoc::types::*;
 
 pub fn run() {
     let mut p = HeapBytes::from_slice_into_locked(&[1u8; 32]).unwrap().munlock().unwrap().mprotect_noaccess().unwrap();
-    p.resize(64, 0);
+    p.resize(32 + 32, 0);
 }
